@@ -54,7 +54,13 @@ def run(ctx):
               "R2", "scattering kernel reachable from neutron_scattering", "no callee computes the outputs", site)
 
     # R1/R2 full chain, density given
-    got = spec.unpack(I.call(ns, [dict(comp)], {"density": rho, "wavelength": lam}))
+    try:
+        got = spec.unpack(I.call(ns, [dict(comp)], {"density": rho, "wavelength": lam}))
+    except spec.ConditionalResult as cr:
+        ctx.fail("R2", "neutron_scattering returns the three SLDs, three cross sections and the penetration depth for every compound with neutron data",
+                 f"the shape of the result depends on the data: {str(cr)[:300]} (an atom with b_c = 0, such as natural Sm, "
+                 "or zero number density is not 'missing')", site)
+        return
     want = spec.compound(q, m, b, s, rho, lam)
     M = sum(a * c for a, c in zip(q, m))
     nz = [rho * M]      # the documented equations divide by the molar mass and the density
